@@ -496,11 +496,15 @@ def inject(spec, text, contract, warnings, vac=False):
         po = hits[0].end() - 1
         pc = match_brace(body, po, '(', ')')
         args = body[po + 1:pc - 1]
-        mc = re.search(r'\|\s*(\w+)\s*\|\s*(?!\{)', args)
+        mc = re.search(r'\|\s*(&?)\s*(\w+)\s*\|\s*(?!\{)', args)
         if not mc:
-            raise AnchorLost('%s: closure anchor: no single-expression closure `|x| expr` in the arguments of %s' % (fnm, callee))
-        var, expr = mc.group(1), args[mc.end():].rstrip().rstrip(',').rstrip()
-        body = body[:po + 1] + args[:mc.start()] + sigt.replace('$v', var) + ' { ' + expr + ' }' + body[pc - 1:]
+            raise AnchorLost('%s: closure anchor: no single-expression closure `|x| expr` / `|&x| expr` in the arguments of %s' % (fnm, callee))
+        deref, var, expr = mc.group(1), mc.group(2), args[mc.end():].rstrip().rstrip(',').rstrip()
+        if deref:
+            # `|&x| expr`: the parameter is bound by value; the annotated closure takes the reference and binds x first
+            body = body[:po + 1] + args[:mc.start()] + sigt.replace('$v', var + '__r') + ' { let %s = *%s__r; %s }' % (var, var, expr) + body[pc - 1:]
+        else:
+            body = body[:po + 1] + args[:mc.start()] + sigt.replace('$v', var) + ' { ' + expr + ' }' + body[pc - 1:]
     blines = [(l, base) for l in body.split('\n')]
     # loops.  A loop's annotation is anchored by the text of its header + ordinal.  When a header's text has changed but the
     # function still has the same loops in the same order and of the same kind (label, loop/while/while let/for), the
